@@ -10,6 +10,11 @@ func C14(seed uint64, run int) *spec.Spec {
 	s := &spec.Spec{V: 1, Property: "C14", Seed: seed, Run: run, Decisions: []spec.Decision{}}
 	s.Config.Policy = "seq"
 	s.Clock = spec.Clock{ZoneS: 8 * 3600}
+	if r.Chance(0.3) {
+		// the process-local zone is part of the environment: zones with daylight-saving rules (clock changes on
+		// weekdays, at midnight, by 30 minutes, a skipped calendar day) must not matter to civil-date stepping
+		s.Clock.Zone = r.PickS(NamedZones)
+	}
 	s.Samples = r.U64()
 	n := r.Range(0, 8)
 	if r.Chance(0.08) {
